@@ -1,14 +1,20 @@
 import T2N.Driver.Exec
 
-partial def loop (hin : IO.FS.Stream) (hout : IO.FS.Stream) : IO Unit := do
+partial def loop (cc : T2N.CharClasses) (hin : IO.FS.Stream) (hout : IO.FS.Stream) : IO Unit := do
   let line ← hin.getLine
   if line.isEmpty then return ()
   let l := if line.endsWith "\n" then (line.dropEnd 1).toString else line
-  hout.putStrLn (T2N.Exec.exec l)
-  loop hin hout
+  hout.putStrLn (T2N.Exec.exec cc l)
+  loop cc hin hout
 
-def main (_args : List String) : IO Unit := do
+/-- usage: `t2n-driver [--cc <table file>]` — one request per line on stdin, one answer per line on stdout -/
+def main (args : List String) : IO Unit := do
+  let table ← match args with
+    | ["--cc", path] => do
+        let content ← IO.FS.readFile path
+        pure (T2N.CC.parseTable content)
+    | _ => pure T2N.CC.asciiTable
   let hin ← IO.getStdin
   let hout ← IO.getStdout
-  loop hin hout
+  loop table.toCC hin hout
   hout.flush
